@@ -127,18 +127,24 @@ let bolt_dump (db : bdb) : string =
   if db = [] then "~" else String.concat "," (List.map (fun (k, v) -> field_of_bytes k ^ "=" ^ field_of_bytes v) db)
 
 let run_store () =
-  let ms = ref ms_init and bs = ref bs_init and ss = ref ss_init and opno = ref 0 in
+  let ms = ref ms_init and bs = ref bs_init and ss = ref ss_init and ssb = ref ss_init and opno = ref 0 in
   let step o =
     let (m', _) = ms_step id_order !ms o in ms := m';
     let (b', bo) = bs_step cap !bs o in bs := b';
-    ss := sp_step !ss o;
+    ss := sp_step !ss o; ssb := sp_step !ssb o;
     (match bo with SMisuse -> diverge "store-misuse" (Printf.sprintf "op %d is API misuse in the model" !opno) | _ -> ()) in
   (try
     while true do
       let line = input_line stdin in
       incr opno;
       match String.split_on_char ' ' line with
-      | ["STORE"] -> incr ncases; ms := ms_init; bs := bs_init; ss := ss_init; opno := 0
+      | ["STORE"] -> incr ncases; ms := ms_init; bs := bs_init; ss := ss_init; ssb := ss_init; opno := 0
+      | ["REMOVEM"; nm; p] ->
+          (* Remove while a transaction is open, memory store only (bolt would block): acts on the committed state *)
+          let o = SRemove (name_of_string nm, p = "1") in
+          let (m', _) = ms_step id_order !ms o in ms := m'; ss := sp_step !ss o
+      | "STALE" :: rest ->
+          oracle "store:bolt:returned-wire-not-stable" (short (String.concat " " rest))
       | ["PUT"; nm; ver; w] -> step (SPut (name_of_string nm, n_of_dec ver, bytes_of_field w))
       | ["REMOVE"; nm; p] -> step (SRemove (name_of_string nm, p = "1"))
       | ["BEGIN"] -> step SBegin
@@ -161,6 +167,8 @@ let run_store () =
           if not (spec_get_ok e name pfx im) then
             oracle (Printf.sprintf "store:mem:%s" (if pfx then "prefix-not-newest" else "exact-wrong"))
               (Printf.sprintf "op %d GET %s %s returned %s" !opno nm p rm);
+          let e = !ssb.ss_e in
+          let scan = int_of_nat (spec_scan_len e name) in
           if not (spec_get_ok e name pfx ib) then
             oracle (Printf.sprintf "store:bolt:%s%s" (if pfx then "prefix-not-newest" else "exact-wrong")
                       (if pfx && scan >= int_of_n cap then ":scan>=cap" else ""))
